@@ -12,20 +12,22 @@ TAdd == /\ l <= Len(T) /\ Ev.op \in {"add_root", "add_group"}
         /\ l' = l + 1 /\ UNCHANGED tid
 TAddRef == /\ l <= Len(T) /\ Ev.op = "add_ref" /\ AddRef(Ev.name) /\ l' = l + 1 /\ UNCHANGED tid
 TMove == /\ l <= Len(T) /\ Ev.op = "move" /\ Move /\ l' = l + 1 /\ UNCHANGED tid
+TAddRepeat == /\ l <= Len(T) /\ Ev.op = "add_repeat" /\ AddRepeat /\ l' = l + 1 /\ UNCHANGED tid
 TMark == /\ l <= Len(T) /\ Ev.op = "mark" /\ Mark /\ l' = l + 1 /\ UNCHANGED tid
 TRender == /\ l <= Len(T) /\ Ev.op = "render" /\ Render
            /\ Check("no_crash", Ev.outcome \in {"ok", "rejected"})
            /\ Check("ambiguous_tree_rejected_on_every_render", Ambiguous => Ev.outcome = "rejected")
            /\ Check("unresolvable_reference_rejected_on_every_render", RefBroken => Ev.outcome = "rejected")
            /\ Check("unambiguous_tree_renders", (~Ambiguous /\ ~RefBroken) => Ev.outcome = "ok")
-           /\ (Prop = "C03" => Check("references_reach_the_nodes_of_the_tree_as_it_is_now",
+           /\ (Prop = "C03" => Check("references_reach_nodes_of_the_current_tree",
                     Ev.outcome = "ok" => (Len(Ev.ref_paths) = Len(refs) /\ \A i \in 1..Len(refs) : Ev.ref_paths[i] = TargetPath(refs[i]))))
            /\ (Prop = "C02" => Check("closure_of_what_was_rendered", Ev.outcome = "ok" => (Ev.unique_siblings /\ Ev.binds_once /\ Ev.controls_once /\ Ev.closure)))
+           /\ (Prop = "C03" => Check("late_repeat_references_are_relative", Ev.outcome = "ok" => Ev.rep_relative = nrep))
            /\ (Prop = "C02" => Check("group_children_where_the_group_is_now", Ev.outcome = "ok" => GroupChildPaths \subseteq {Ev.inst_paths[i] : i \in 1..Len(Ev.inst_paths)}))
            /\ (Prop = "C05" => Check("logic_attribute_on_its_own_bind_only", Ev.outcome = "ok" => {Ev.required_on[i] : i \in 1..Len(Ev.required_on)} = MarkedPaths))
            /\ (Prop = "C15" => Check("pretty_and_compact_agree_on_every_render", Ev.outcome = "ok" => Ev.modes_agree))
            /\ (Prop = "C07" => Check("itext_closed_on_every_render", Ev.outcome = "ok" => (Ev.refs_resolve /\ Ev.same_ids /\ Ev.has_refs)))
            /\ l' = l + 1 /\ UNCHANGED tid
-TSpec == TInit /\ [][TAdd \/ TAddRef \/ TMark \/ TMove \/ TRender]_<<svars, tid, l>>
+TSpec == TInit /\ [][TAdd \/ TAddRef \/ TAddRepeat \/ TMark \/ TMove \/ TRender]_<<svars, tid, l>>
 Accepted == (l = Len(T) + 1) => PrintT(<<"ACCEPT", tid>>)
 =============================================================================
